@@ -1,2 +1,61 @@
-//! verif::hangul — guarded hooks (cfg rustybuzz_verif).
+//! verif::hangul — guarded hooks (cfg rustybuzz_verif) for property C12: the pure range predicates
+//! of `ot_shaper_hangul.rs`, `compose_hangul` / `decompose_hangul` of `unicode.rs`, and the real
+//! `preprocess_text_hangul` run on a fresh buffer with a real face.
 #![allow(unused_imports)]
+use alloc::vec::Vec;
+
+use crate::hb::buffer::{glyph_flag, UnicodeBuffer};
+use crate::hb::ot_shape_plan::hb_ot_shape_plan_t;
+use crate::hb::ot_shaper_hangul as hg;
+use crate::hb::{script, unicode};
+use crate::{BufferFlags, Direction, Face};
+
+/// 0..=7: is_combining_l, is_combining_v, is_combining_t, is_combined_s, is_l, is_v, is_t, is_hangul_tone.
+pub fn pred(which: u8, u: u32) -> bool {
+    hg::verif_pred(which, u)
+}
+
+/// The numbers stored in `hangul_shaping_feature` for ljmo, vjmo, tjmo.
+pub fn jmo_numbers() -> [u8; 3] {
+    hg::VERIF_JMO
+}
+
+pub fn compose_hangul(a: char, b: char) -> Option<char> {
+    unicode::verif_compose_hangul(a, b)
+}
+
+pub fn decompose_hangul(ab: char) -> Option<(char, char)> {
+    unicode::decompose_hangul(ab)
+}
+
+/// Runs the real `preprocess_text_hangul` on `text` = (character, cluster) pairs. Returns per
+/// resulting info: code point, cluster, hangul_shaping_feature, glyph-flag bits of the mask.
+pub fn preprocess(
+    face: &Face,
+    text: &[(char, u32)],
+    cluster_level: u32,
+    do_not_insert_dotted_circle: bool,
+) -> Vec<(u32, u32, u8, u32)> {
+    let mut ub = UnicodeBuffer::new();
+    for (c, cl) in text {
+        ub.add(*c, *cl);
+    }
+    let mut b = ub.0;
+    b.cluster_level = cluster_level;
+    if do_not_insert_dotted_circle {
+        b.flags |= BufferFlags::DO_NOT_INSERT_DOTTED_CIRCLE;
+    }
+    let plan = hb_ot_shape_plan_t::new(face, Direction::LeftToRight, Some(script::HANGUL), None, &[]);
+    hg::verif_preprocess_text_hangul(&plan, face, &mut b);
+    (0..b.len)
+        .map(|i| {
+            let info = &b.info[i];
+            (
+                info.glyph_id,
+                info.cluster,
+                hg::verif_hangul_shaping_feature(info),
+                info.mask & glyph_flag::DEFINED,
+            )
+        })
+        .collect()
+}
